@@ -26,6 +26,7 @@ import (
 
 func init() {
 	register("walker-replay", walkerReplay)
+	register("walker-groupslast", walkerGroupsLast)
 	register("walker-genprog", walkerGenProg)
 	register("walker-record", walkerRecord)
 }
@@ -761,6 +762,141 @@ func walkerLoadMarkers(path string) ([]walkerMarker, error) {
 }
 
 // walker-replay -markers <file> [-gen] [-carriers a,b] < vectors.ndjson > results.ndjson
+// ---------------------------------------------------------------- walker-groupslast: where the group clauses stand
+//
+// A fixed family of inputs in which field violations and group violations occur together: one object, slices / arrays /
+// maps of objects (by value and by pointer) as root and as a `required` field, with 1..4 elements of which some violate
+// the group, some a field rule, some both.  Every call is recorded as the sequence of its clause classes ("g" group
+// clause, "f" other clause) plus the numbers of each the input calls for; spec/Judge_GroupsLast.tla judges the records.
+
+type walkerGL struct {
+	A int    `valid:"either=1"`
+	B int    `valid:"either=1"`
+	C string `valid:"required"`
+	P string `valid:"botheq=2"`
+	Q string `valid:"botheq=2"`
+}
+
+type walkerGLOuter struct {
+	L []walkerGL          `valid:"required"`
+	D string              `valid:"required"`
+	M map[string]walkerGL `valid:"exist"`
+	E int                 `valid:"ge=5"`
+}
+
+// elem k: bit 0 = the either group is violated, bit 1 = the field rule is violated, bit 2 = the botheq group is violated
+func walkerGLElem(k int) (e walkerGL, g, f int) {
+	e = walkerGL{A: 1, C: "c", P: "x", Q: "x"}
+	if k&1 != 0 {
+		e.A = 0
+		g++
+	}
+	if k&2 != 0 {
+		e.C = ""
+		f++
+	}
+	if k&4 != 0 {
+		e.Q = "y"
+		g++
+	}
+	return
+}
+
+type walkerGLRec struct {
+	ID    int      `json:"id"`
+	Shape string   `json:"shape"`
+	Elems []int    `json:"elems"`
+	Kinds []string `json:"kinds"`
+	WantG int      `json:"wantg"`
+	WantF int      `json:"wantf"`
+	Err   string   `json:"err"`
+}
+
+func walkerGroupsLast(args []string) error {
+	out := newLineWriter(os.Stdout)
+	defer out.flush()
+	id := 0
+	var combos [][]int
+	for n := 1; n <= 3; n++ {
+		idx := make([]int, n)
+		for {
+			combos = append(combos, append([]int(nil), idx...))
+			k := n - 1
+			for k >= 0 {
+				idx[k]++
+				if idx[k] < 8 {
+					break
+				}
+				idx[k] = 0
+				k--
+			}
+			if k < 0 {
+				break
+			}
+		}
+	}
+	for _, shape := range []string{"one", "slice", "pslice", "array", "map", "field", "fieldmap"} {
+		for _, cb := range combos {
+			if (shape == "one" && len(cb) != 1) || (shape == "array" && len(cb) != 2) || ((shape == "map" || shape == "fieldmap") && len(cb) != 1) {
+				continue
+			}
+			var src interface{}
+			g, f := 0, 0
+			es := make([]walkerGL, len(cb))
+			for i, k := range cb {
+				var dg, df int
+				es[i], dg, df = walkerGLElem(k)
+				g += dg
+				f += df
+			}
+			switch shape {
+			case "one":
+				src = &es[0]
+			case "slice":
+				src = es
+			case "pslice":
+				ps := make([]*walkerGL, len(es))
+				for i := range es {
+					ps[i] = &es[i]
+				}
+				src = ps
+			case "array":
+				src = [2]walkerGL{es[0], es[1]}
+			case "map":
+				src = map[string]walkerGL{"k1": es[0]}
+			case "field":
+				src = &walkerGLOuter{L: es, E: 1} // D missing, E below 5: two field clauses of the outer object BEHIND the nested ones
+				f += 2
+			case "fieldmap":
+				src = &walkerGLOuter{L: []walkerGL{{A: 1, C: "c", P: "x", Q: "x"}}, D: "d", M: map[string]walkerGL{"k1": es[0]}, E: 1}
+				f++
+			}
+			id++
+			rec := walkerGLRec{ID: id, Shape: shape, Elems: cb, Kinds: []string{}, WantG: g, WantF: f}
+			func() {
+				defer func() {
+					if p := recover(); p != nil {
+						rec.Err = "panic: " + fmt.Sprint(p)
+						rec.Kinds = []string{"panic"}
+					}
+				}()
+				if err := valid.Struct(src); err != nil {
+					rec.Err = err.Error()
+					for _, cl := range strings.Split(rec.Err, valid.ErrEndFlag) {
+						if strings.Contains(cl, "they shouldn't all be empty") || strings.Contains(cl, "they should be equal") {
+							rec.Kinds = append(rec.Kinds, "g")
+						} else {
+							rec.Kinds = append(rec.Kinds, "f")
+						}
+					}
+				}
+			}()
+			out.put(rec)
+		}
+	}
+	return nil
+}
+
 // walkerSep is the clause separator of this process.  The library takes it from the exported variable ErrEndFlag; with
 // VERIF_ENDFLAG set the harness assigns that variable before the first call and splits errors at the same text, so the
 // walkers are also observed under a separator other than the default one.
